@@ -131,6 +131,7 @@ class FetchAttribute(Parseable[bytes]):
     _section_start_pattern = re.compile(br' *\[ *')
     _section_end_pattern = re.compile(br' *\]')
     _partial_pattern = re.compile(br'< *(\d+) *\. *(\d+) *>')
+    _field_name = re.compile(br'[\x21-\x39\x3b-\x7e]+')
 
     _sec_part_pattern = re.compile(br'([1-9]\d* *(?:\. *[1-9]\d*)*) *(\.)? *')
 
@@ -214,7 +215,8 @@ class FetchAttribute(Parseable[bytes]):
                 if self.section.headers:
                     headers = self.section.headers
                     parts.append(b' ')
-                    parts.append(bytes(List(headers, sort=True)))
+                    parts.append(bytes(List(
+                        [AString(hdr) for hdr in sorted(headers)])))
             parts.append(b']')
         if self.partial:
             start, length = (self.partial.start, self.partial.length)
@@ -267,6 +269,9 @@ class FetchAttribute(Parseable[bytes]):
             header_list = frozenset([hdr.value for hdr in
                                      header_list_p.get_as(AString)])
             if not header_list:
+                raise NotParseable(after)
+            elif not all(cls._field_name.fullmatch(hdr)
+                         for hdr in header_list):
                 raise NotParseable(after)
             return cls.Section(section_parts, specifier, header_list), buf
         raise NotParseable(buf)
